@@ -171,6 +171,7 @@ fn search_parallel(args: &HiArgs, mode: SearchMode) -> anyhow::Result<bool> {
     let stats = args.stats().map(std::sync::Mutex::new);
     let matched = AtomicBool::new(false);
     let searched = AtomicBool::new(false);
+    let broken_pipe = AtomicBool::new(false);
 
     let mut searcher = args.search_worker(
         args.matcher()?,
@@ -182,6 +183,7 @@ fn search_parallel(args: &HiArgs, mode: SearchMode) -> anyhow::Result<bool> {
         let stats = &stats;
         let matched = &matched;
         let searched = &searched;
+        let broken_pipe = &broken_pipe;
         let haystack_builder = &haystack_builder;
         let mut searcher = searcher.clone();
 
@@ -213,6 +215,7 @@ fn search_parallel(args: &HiArgs, mode: SearchMode) -> anyhow::Result<bool> {
             if let Err(err) = bufwtr.print(searcher.printer().get_mut()) {
                 // A broken pipe means graceful termination.
                 if err.kind() == std::io::ErrorKind::BrokenPipe {
+                    broken_pipe.store(true, Ordering::SeqCst);
                     return WalkState::Quit;
                 }
                 // Otherwise, we continue on our merry way.
@@ -225,6 +228,13 @@ fn search_parallel(args: &HiArgs, mode: SearchMode) -> anyhow::Result<bool> {
             }
         })
     });
+    // A broken pipe means graceful termination: `main` turns it into a
+    // successful exit, as for the single-threaded search. (The file whose
+    // output could not be written need not have a match, e.g. with
+    // --include-zero, --passthru or --files-without-match.)
+    if broken_pipe.load(Ordering::SeqCst) {
+        return Err(std::io::Error::from(std::io::ErrorKind::BrokenPipe).into());
+    }
     if args.has_implicit_path() && !searched.load(Ordering::SeqCst) {
         eprint_nothing_searched();
     }
